@@ -184,9 +184,168 @@ def check(ctx):
             _c09.check_crossover(C, n, sel, C.rng.randrange(1 << 30), drv=drv, deep=(k % 2 == 0))
             selm = [C.rng.randrange(n) for _ in range(C.rng.randint(2, 5))]
             _c09.check_mutation(C, drv, n, selm, C.rng.randrange(1 << 30), single=[selm[0]] if k % 2 == 0 else ())
+        # individuals as deep as long bloating runs leave them, handed to every operator
+        deep_cases(C, ctx['tier'])
     finally:
         drv.close()
     return C.result()
+
+
+def _deep_tree(depth, lean, terms):
+    """a proper tree `depth` levels deep, built without recursion: a comb of binary operators whose spine continues
+    on the right ('right'), on the left ('left') or alternates ('zig'); leaves are copies of the terminal arrays"""
+    L = lib.load()
+    Node, np = L['Node'], L['np']
+    count = [0]
+
+    def leaf():
+        k = count[0] % len(terms)
+        count[0] += 1
+        return Node(name=k, type='TERMINAL', value=np.array(terms[k], copy=True))
+    root = cur = Node(name='SUM', type='FUNCTION')
+    for i in range(depth):
+        nxt = leaf() if i == depth - 1 else Node(name='SUM' if i % 3 else 'MUL', type='FUNCTION')
+        other = leaf()
+        on_right = lean == 'right' or (lean == 'zig' and i % 2 == 1)
+        l_, r_ = (other, nxt) if on_right else (nxt, other)
+        cur.left = l_
+        l_.flag = True
+        l_.parent = cur
+        cur.right = r_
+        r_.flag = False
+        r_.parent = cur
+        cur = nxt
+    return root
+
+
+def _links(root):
+    """everything a tree's nodes hold, without recursion (identity of the node, of its children and parent, flag)"""
+    return [(id(n), str(n.name), n.type, id(n.left) if n.left is not None else None,
+             id(n.right) if n.right is not None else None, id(n.parent) if n.parent is not None else None, n.flag)
+            for n in T.walk(root)[0]]
+
+
+def deep_case(C, rc):
+    """one GP operator applied to individuals as deep as long bloating runs leave them (far deeper than any depth limit
+    of the space, up to and beyond the depth `copy.deepcopy` manages under Python's recursion limit).  Python's
+    RecursionError is outside the property (nothing was produced); every tree that IS produced must be a proper tree,
+    disjoint from its parents and from the rest of the forest, and the parents stay as they were."""
+    import random as _r, sys as _sys
+    import opytimizer.math.general as g
+    L = lib.load()
+    np = L['np']
+    rp = dict(rc, how='deep')
+    rng = _r.Random(rc['seed'])
+    np.random.seed(rc['seed'])
+    gp = L['kinds']['GP'](hyperparams=dict(rc.get('hyper') or {}))
+    sp = L['TreeSpace'](n_trees=rc.get('n', 4), n_terminals=2, n_variables=1, n_iterations=1, min_depth=1, max_depth=3,
+                        functions=['SUM', 'MUL', 'ABS'], lower_bound=[0.0], upper_bound=[1.0])
+    terms = [t_.position for t_ in sp.terminals]
+    deep = [_deep_tree(d_, rc['lean'], terms) for d_ in rc['depths']]
+    for d_ in deep:
+        if T.wf_oracle(d_, 1, 1):
+            raise RuntimeError('harness: the deep tree is not a proper tree')
+    parents_before = [_links(d_) for d_ in deep]
+    produced, forest = [], None
+    old_limit = _sys.getrecursionlimit()
+    _sys.setrecursionlimit(1000)
+    sc = gpops.Script(rng, forced=list(rc.get('points') or [])).install()
+    orig_t = g.tournament_selection
+    outcome = 'returned'
+    try:
+        op = rc['op']
+        if op == 'mutate':
+            pt = rc['points'][0]
+            sc.forced = [pt if pt > 0 else deep[0].n_nodes + pt]
+            produced = [gp._mutate(sp, deep[0], deep[0].n_nodes)]
+        elif op == 'cross':
+            mother = deep[1] if len(deep) > 1 else sp.trees[1]
+            if len(deep) == 1:
+                parents_before.append(_links(mother))
+                deep.append(mother)
+            pf, pm = rc['points']
+            sc.forced = [pf if pf > 0 else deep[0].n_nodes + pf, pm if pm > 0 else mother.n_nodes + pm]
+            if rc.get('swap'):
+                produced = list(gp._cross(mother, deep[0], mother.n_nodes, deep[0].n_nodes))
+            else:
+                produced = list(gp._cross(deep[0], mother, deep[0].n_nodes, mother.n_nodes))
+        else:
+            # operators working on the population: the deep individuals sit in the first slots
+            for i_, d_ in enumerate(deep):
+                sp.trees[i_] = d_
+            for i_, a_ in enumerate(sp.agents):
+                a_.fit = float(i_ + 1)
+            g.tournament_selection = lambda fit, k: list(rc['selected'])[:k] if k <= len(rc['selected']) else list(rc['selected'])
+            forest = sp
+            if op == 'reproduction':
+                gp._reproduction(sp)
+            elif op == 'crossover':
+                gp._crossover(sp)
+            elif op == 'mutation':
+                gp._mutation(sp)
+            elif op == 'evaluate':
+                # the first individual evaluated becomes the best tree (a deep copy)
+                sp.best_agent.fit = L['c'].FLOAT_MAX
+                gp._evaluate(sp, L['Function'](lambda x: float(np.sum(x ** 2))))
+    except RecursionError:
+        outcome = 'recursion-limit'
+    finally:
+        sc.remove()
+        g.tournament_selection = orig_t
+        _sys.setrecursionlimit(old_limit)
+    # ---- the oracle
+    for k_, o in enumerate(produced):
+        d_ = T.wf_oracle(o, 1, 1)
+        if d_:
+            C.issue('deep-offspring-malformed', 'oracle', rp, which=k_, defects=sorted(set(d_))[:6], n_defects=len(d_))
+    if produced:
+        ids = [set(gpops.node_ids(o)) for o in produced]
+        pids = set(x for d_ in deep for x in gpops.node_ids(d_))
+        if any(i_ & pids for i_ in ids) or (len(ids) == 2 and ids[0] & ids[1]):
+            C.issue('deep-offspring-share-nodes', 'oracle', rp)
+    if forest is not None:
+        whole = list(forest.trees) + [forest.best_tree]
+        seen = {}
+        for k_, t_ in enumerate(whole):
+            name = f'trees[{k_}]' if k_ < len(forest.trees) else 'best_tree'
+            d_ = T.wf_oracle(t_, 1, 1)
+            if d_:
+                C.issue('deep-forest-tree-malformed', 'oracle', rp, which=name, defects=sorted(set(d_))[:6], n_defects=len(d_), outcome=outcome)
+            for x in gpops.node_ids(t_):
+                if x in seen and seen[x] != name:
+                    C.issue('deep-forest-not-disjoint', 'oracle', rp, trees=[seen[x], name], outcome=outcome)
+                    break
+                seen[x] = name
+        if len(forest.trees) != rc.get('n', 4) or len(forest.agents) != rc.get('n', 4):
+            C.issue('deep-population-size', 'oracle', rp)
+    if rc['op'] in ('mutate', 'cross', 'reproduction', 'evaluate'):
+        # these never edit the individuals they read (the loops replace slots; the objects formerly there are dropped)
+        if [_links(d_) for d_ in deep] != parents_before:
+            C.issue('deep-parent-changed', 'oracle', rp, outcome=outcome)
+    C.extra.setdefault('deep_outcomes', {}).setdefault(outcome, 0)
+    C.extra['deep_outcomes'][outcome] += 1
+    C.case(key=('deep', rc['op'], tuple(rc['depths']), rc['lean'], tuple(rc.get('points') or ()), rc['seed']),
+           nontrivial=outcome == 'returned', kind='deep-' + rc['op'] + ('' if outcome == 'returned' else '-recursion-limit'))
+
+
+def deep_cases(C, tier):
+    """the grid of deep cases: every operator x depths on either side of what `copy.deepcopy` manages"""
+    k = 0
+    for depth in (60, 150, 320, 450, 800):
+        for lean in ('right', 'zig', 'left'):
+            if tier == 'quick' and lean == 'left' and depth not in (150, 450):
+                continue
+            k += 1
+            seed = 1000 * depth + k
+            deep_case(C, dict(op='mutate', depths=[depth], lean=lean, points=[(2, -1, depth, -depth)[k % 4]], seed=seed))
+            deep_case(C, dict(op='cross', depths=[depth], lean=lean, points=[(-2, 3, depth)[k % 3], 2], swap=bool(k % 2), seed=seed))
+            deep_case(C, dict(op='cross', depths=[depth, 40 + depth // 2], lean=lean, points=[-3, (2, -1)[k % 2]], seed=seed))
+            deep_case(C, dict(op='reproduction', depths=[depth], lean=lean, selected=[0], hyper={'p_reproduction': 0.3}, seed=seed))
+            deep_case(C, dict(op='evaluate', depths=[depth], lean=lean, selected=[], seed=seed))
+            deep_case(C, dict(op='crossover', depths=[depth, depth + 7], lean=lean, selected=[0, 2, 1, 3], n=6,
+                              hyper={'p_crossover': 0.6, 'prunning_ratio': 0.0}, seed=seed))
+            deep_case(C, dict(op='mutation', depths=[depth], lean=lean, selected=[0, 1], n=6,
+                              hyper={'p_mutation': 0.4, 'prunning_ratio': 0.0}, seed=seed))
 
 
 def op_kinds(s):
@@ -214,6 +373,10 @@ def replay(prop, payload):
     if payload['how'] in ('crossover', 'mutation'):
         from props import c09 as _c09
         return _c09.replay(prop, payload)
+    if payload['how'] == 'deep':
+        C = Comp(dict(seed=0, tier='quick'), '')
+        deep_case(C, {k_: v_ for k_, v_ in payload.items() if k_ != 'how'})
+        return any(i['layer'] == 'oracle' for i in C.issues)
     if payload['how'] == 'cross':
         f, m = decode(payload['father']), decode(payload['mother'])
         sc = gpops.Script(random.Random(0), forced=[payload['pf'], payload['pm']]).install()
